@@ -970,6 +970,13 @@ class OdeSystem(object):
         steps = 0
 
         events, is_terminal, direction, last_occurrence, requires_dstate = prepare_events(events, self.__y[0])
+        if events is not None:
+            # a crossing recorded by an earlier call at the point where this call starts is the same crossing, not a new one
+            for ev_idx, ev in enumerate(events):
+                for prev_idx in range(len(self.__events) - 1, -1, -1):
+                    if self.__events[prev_idx].event is ev:
+                        last_occurrence[ev_idx] = prev_idx
+                        break
 
         implicit_integration = False
         if np.isinf(D.ar_numpy.to_numpy(tf)):
